@@ -5,5 +5,6 @@ CONSTANTS
   MaxT = 4
   MaxE = 3
   Original = TRUE
-INVARIANTS StorageTypeOK Durable WeightExact CertsPending NoLeak
+  TwoWrites = FALSE
+INVARIANTS StorageTypeOK Durable WeightExact CertsPending NoLeak CrashAtomic
 PROPERTIES ReopenInvisible
